@@ -364,6 +364,9 @@ RunInfo run(const sim::Plan &plan) {
     size_t parent_live_before = simalloc::live_count();
     struct aws_allocator *dying = c.tr;
     c.tr = nullptr; // the sink stops querying
+    // the tracer keeps its own state (with an atomic counter in it) on the real heap: whether a later tracer of this run gets the same
+    // address is the heap's business, not the run's
+    sim::forget_objects(dying->impl, 1024);
     struct aws_allocator *back = aws_mem_tracer_destroy(dying);
     if (back != c.parent) sim::violation("c17:destroy", "aws_mem_tracer_destroy did not return the wrapped allocator");
     for (const Block &b : kept) {
